@@ -21,13 +21,14 @@ RULE = ("C10's frame sequences (changed / unchanged mix: every frame is followed
         "changed), MUST NOT (identical record / not subscribed / AC-state-only subscriber for a "
         "zone change), MAY (only unexposed bits differ). Non-trivial = a frame produced at least "
         "one MUST or MUST-NOT verdict; distinct = distinct (frame, subscriber set) steps.")
-ASSUMPTIONS = ["subscribers are async callables that raise inside the coroutine "
-               "(contract type Callable[..., Awaitable])",
+ASSUMPTIONS = ["subscribers are callables returning awaitables (objects with async __call__, "
+               "bound methods, plain functions); a failing one raises either inside the "
+               "coroutine or when it is called",
                "change classification comes from the reference model fed the same bytes"]
 REQUIRED_OBS = ["must_verdicts", "must_not_verdicts", "repeat_frames", "raising_subscribers",
                 "zone_to_ac_forwarding", "unsubscribed_silent", "double_subscription",
                 "after_reinit", "single_field_changes", "self_unsubscribed_in_callback",
-                "bound_method_subscribers"]
+                "bound_method_subscribers", "subscribers_failing_when_called"]
 SOAK = True   # also judged by the whole-run monitors of the soak sessions (vf/soak.py)
 BUDGET = {"quick": 100, "thorough": 1500}
 
@@ -82,6 +83,11 @@ def run_case(case):
             fn = (lambda: s.on_update) if bound else (lambda: s)
             if bound:
                 obs["bound_method_subscribers"] = obs.get("bound_method_subscribers", 0) + 1
+            elif s.raises and rnd.random() < 0.4:
+                # a raising subscriber that fails when it is called, not when it is awaited
+                fn = s.failing_when_called
+                obs["subscribers_failing_when_called"] = obs.get(
+                    "subscribers_failing_when_called", 0) + 1
             subs.append({"sub": s, "kind": kind, "ent": ent,
                          "attach": lambda _x, a=attach, f=fn: a(f()),
                          "detach": lambda _x, d=detach, f=fn: d(f()),
